@@ -22,7 +22,7 @@ theorem decodeLL_tecmp (t : Table) (b : Bytes) (h8 : 8 ≤ b.length) (h0 : byteA
     exactly the model's packets -/
 theorem decode_total_src (t : Table) (pre b post : Bytes) (fuel : Nat)
     (hT : C17b.TableOk t) (hR : TableReg t) (hpre : 0 < pre.length) (h8 : 8 ≤ b.length)
-    (hlen : b.length < 2 ^ 31) (hmem : (pre ++ b ++ post).length < 2 ^ 63) (hf : b.length ≤ fuel) :
+    (hmem : (pre ++ b ++ post).length < 2 ^ 63) (hf : b.length ≤ fuel) :
     ∃ t' outs, Decoder_decode_obj fuel (tblSt t) (pre ++ b ++ post) pre.length b.length (SrcTec.tecmpExt fuel) =
         some (tblSt t', outs) ∧
       C17b.TableOk t' ∧ t'.abs = (decode t.abs (some b)).1 ∧
@@ -32,7 +32,7 @@ theorem decode_total_src (t : Table) (pre b post : Bytes) (fuel : Nat)
     obtain ⟨_, k2, k3⟩ := C17b.decodeLL_refines t (some b) hT
     rw [decodeLL_tecmp t b h8 h0] at k2 k3
     exact ⟨t, _, hsrc, hT, k2, by rw [hmap]; exact k3⟩
-  · obtain ⟨t', outs, h1, h2, h3, h4⟩ := decode_src_model t pre b post fuel (SrcTec.tecmpExt fuel) hT hR hpre h8 h0 hlen hmem hf
+  · obtain ⟨t', outs, h1, h2, h3, h4⟩ := decode_src_model t pre b post fuel (SrcTec.tecmpExt fuel) hT hR hpre h8 h0 hmem hf
     refine ⟨t', _, h1, h2, h3, ?_⟩
     rw [List.map_map, ← h4]
     rfl
@@ -66,14 +66,14 @@ def exFrame : Bytes :=
 example : ∃ t' outs, Decoder_decode_obj 64 (tblSt []) ([9] ++ SrcTec.exCanFd ++ [5, 5]) 1 49 (SrcTec.tecmpExt 64) = some (tblSt t', outs) ∧
     C17b.TableOk t' ∧ t'.abs = (decode (Table.abs []) (some SrcTec.exCanFd)).1 ∧
     outs.map (Sum.elim toPacket SrcTec.tAbs) = (decode (Table.abs []) (some SrcTec.exCanFd)).2 :=
-  decode_total_src [] [9] SrcTec.exCanFd [5, 5] 64 tableOk_nil tableReg_nil (by decide) (by decide) (by decide) (by decide) (by decide)
+  decode_total_src [] [9] SrcTec.exCanFd [5, 5] 64 tableOk_nil tableReg_nil (by decide) (by decide) (by decide) (by decide)
 example : ((decode (Table.abs []) (some SrcTec.exCanFd)).2.map fun p => (p.payload.map (·.ty), p.deviceId)) = [(some tyCanFd, 7)] := by
   decide
 
 example : ∃ t' outs, Decoder_decode_obj 64 (tblSt []) ([9] ++ exFrame ++ []) 1 50 (SrcTec.tecmpExt 64) = some (tblSt t', outs) ∧
     C17b.TableOk t' ∧ t'.abs = (decode (Table.abs []) (some exFrame)).1 ∧
     outs.map (Sum.elim toPacket SrcTec.tAbs) = (decode (Table.abs []) (some exFrame)).2 :=
-  decode_total_src [] [9] exFrame [] 64 tableOk_nil tableReg_nil (by decide) (by decide) (by decide) (by decide) (by decide)
+  decode_total_src [] [9] exFrame [] 64 tableOk_nil tableReg_nil (by decide) (by decide) (by decide) (by decide)
 /-- … on which the model delivers one packet and ignores the truncated message (evaluated through the low-level model, which
     `C17b.decodeLL_refines` proves equal to `decode`; `decode` itself recurses on a well-founded measure and does not evaluate
     in the kernel) -/
